@@ -57,7 +57,9 @@ var plans = map[string]propPlan{
 	}},
 	"C02": {"exploration", plain(16)},
 	"C03": {"exploration", plain(16)},
-	"C04": {"fault_enumeration", plain(16)},
+	"C04": {"fault_enumeration", func(string) []pass {
+		return []pass{{Name: "plain", Shards: 10}, {Name: "plain-p2", Shards: 3, Procs: 2}, {Name: "plain-p1", Shards: 3, Procs: 1}}
+	}},
 	"C05": {"fault_enumeration", func(string) []pass {
 		return []pass{
 			{Name: "race-p1", Race: true, Shards: 4, Procs: 1},
@@ -67,7 +69,7 @@ var plans = map[string]propPlan{
 		}
 	}},
 	"C06": {"fault_enumeration", func(string) []pass {
-		return []pass{{Name: "plain", Shards: 10}, {Name: "race", Race: true, Shards: 6}}
+		return []pass{{Name: "plain", Shards: 7}, {Name: "plain-p2", Shards: 3, Procs: 2}, {Name: "race", Race: true, Shards: 6}}
 	}},
 	"C07": {"exploration", plain(8)},
 	"C08": {"exploration", func(string) []pass {
